@@ -10,6 +10,9 @@ def templates():
         ("letstr", [let(SV, bin_("add", Str("AB"), Str("C")))]),
         ("letarr", [let(X1, bin_("mul", I(2), I(3)))]),
         ("zero", [let(A, I(5)), let(A, I(0)), let(SV, Str("X")), let(SV, Str("")), let(X1, I(1)), let(X1, I(0))]),
+        # a zero that only the conversion to the variable's type produces (0.5 -> 0): no slot either
+        ("zeroconv", [let(N, S(1, 1)), let(arr("K%", I(1)), I(1)), let(arr("K%", I(1)), bin_("div", arr("K%", I(1)), I(2))),
+                      let(var("H%"), I(1)), let(var("H%"), bin_("div", var("H%"), I(4)))]),
         ("print", [pr(A, ";", Str("x"), ";", call("TAB", I(3)), ";")]),
         ("printnl", [pr(I(1), ",", I(2))]),
         ("if", [if_(bin_("lt", A, I(0)), [let(B, I(1))], [let(B, I(2))])]),
